@@ -4,6 +4,7 @@ from __future__ import annotations
 import ast
 from typing import Dict, List, Optional, Set, Tuple
 
+from ..inline import inlined_info
 from ..core import Collector, guarded, norm, Unrecognised, AnchorMissing
 from ..pyindex import walk_no_nested, access_path, FuncInfo
 from ..cond import term, conjuncts
@@ -49,12 +50,18 @@ def appended_constants(body: List[ast.stmt], target: Optional[str] = None) -> Li
     return out
 
 
+ANCHOR_HELPERS = {'get_full_name_for_sql', 'comment_to_sql', 'prepare_text_for_sql', 'escape_braces', 'get_references_for_sql', 'get_inline_references_for_sql',
+                  'create_body', 'create_components', 'render_column_notes', 'reorder_tables_for_sql', 'render_pk', 'create_keys'}
+
+
 def run(ctx, col: Collector):
     idx = ctx.idx
 
     # ---------------------------------------------------------------- C03-column
     def column():
         fi = idx.func(f'{SQLD}.column', 'render_column')
+        # small helpers extracted from the renderer are read in place; the helpers the rules name stay calls
+        fi = inlined_info(idx, fi, depth=2, keep=ANCHOR_HELPERS)
         m = [a.arg for a in fi.node.args.args][0]
         # local copy propagation for the composite flag
         comp_var = None
@@ -100,15 +107,30 @@ def run(ctx, col: Collector):
         col.check(okb, 'C03-column', 'render_column:expression-default', 'an Expression default is rendered by the expression renderer',
                   'an Expression default is not passed to the renderer (its text would be emitted without parentheses)', node=fi.node, file=fi.file)
         # type: enum by qualified name
-        tb = [n for n in ast.walk(fi.node) if isinstance(n, ast.If) and 'isinstance' in norm(n.test) and 'Enum' in norm(n.test) and f'{m}.type' in norm(n.test)]
-        okt = False
-        if tb:
-            for c in ast.walk(ast.Module(body=tb[0].body, type_ignores=[])):
+        def is_enum_test(t):
+            return isinstance(t, ast.Call) and isinstance(t.func, ast.Name) and t.func.id == 'isinstance' and len(t.args) == 2 and norm(t.args[0]) == f'{m}.type' \
+                and 'Enum' in norm(t.args[1])
+
+        def qualifies(nodes):
+            for c in ast.walk(ast.Module(body=list(nodes), type_ignores=[])):
                 if isinstance(c, ast.Call) and isinstance(c.func, ast.Name) and c.args and norm(c.args[0]) == f'{m}.type':
                     sym = idx.resolve(fi.module, c.func.id)
-                    okt = sym is not None and sym.kind == 'func' and sym.name == 'get_full_name_for_sql'
-        col.check(okt, 'C03-column', 'render_column:enum-type-qualified', 'an enum-typed column names the enum by its qualified name',
-                  'render_column does not write an enum type through get_full_name_for_sql', node=fi.node, file=fi.file)
+                    if sym is not None and sym.kind == 'func' and sym.name == 'get_full_name_for_sql':
+                        return True
+            return False
+        tb = [(n.body, n.orelse) for n in ast.walk(fi.node) if isinstance(n, ast.If) and is_enum_test(n.test)] + \
+             [([ast.Expr(value=n.body)], [ast.Expr(value=n.orelse)]) for n in ast.walk(fi.node) if isinstance(n, ast.IfExp) and is_enum_test(n.test)]
+        cons = 'render_column:enum-type-qualified'
+        if tb and any(qualifies(b) for b, _ in tb):
+            col.ok('C03-column', cons, 'an enum-typed column names the enum by its qualified name', node=fi.node, file=fi.file)
+        elif tb and any(qualifies(o) for _, o in tb):
+            col.bad('C03-column', cons, 'render_column applies get_full_name_for_sql to the type on the branch where it is NOT an Enum and writes an Enum type raw',
+                    node=fi.node, file=fi.file)
+        elif not any(is_enum_test(t) for t in ast.walk(fi.node)) and not qualifies(fi.node.body):
+            col.bad('C03-column', cons, f'render_column never distinguishes an Enum type and never calls get_full_name_for_sql({m}.type): an enum outside schema public is '
+                    f'named without its schema', node=fi.node, file=fi.file)
+        else:
+            col.unk('C03-column', cons, 'the way render_column writes an Enum type is not recognised', node=fi.node, file=fi.file)
         # name first, quoted
         ss = [s for s in sinks_of(fi) if s.source == ('attr', f'{m}.name')]
         col.check(len(ss) == 1 and ss[0].quote == '"', 'C03-column', 'render_column:name-quoted', 'the column name is written double-quoted',
@@ -188,7 +210,7 @@ def run(ctx, col: Collector):
                   node=rt.node, file=rt.file)
         col.check(any(isinstance(c, ast.Call) and norm(c.func) == 'render_column_notes' and norm(c.args[0]) == m3 for c in ast.walk(rt.node)), 'C03-table',
                   'render_table:column-notes', 'column notes are appended', 'render_table does not call render_column_notes(model)', node=rt.node, file=rt.file)
-        rn = idx.func(mod, 'render_column_notes')
+        rn = inlined_info(idx, idx.func(mod, 'render_column_notes'), depth=2, keep=ANCHOR_HELPERS)
         m4 = [a.arg for a in rn.node.args.args][0]
         fs = [f for f in collect_filters(rn.node) if f['iter'] == f'{m4}.columns']
         loops = [n for n in walk_no_nested(rn.node) if isinstance(n, ast.For) and norm(n.iter) == f'{m4}.columns']
@@ -196,7 +218,12 @@ def run(ctx, col: Collector):
         has_kw = any('COMMENT ON COLUMN' in c.value for c in ast.walk(rn.node) if isinstance(c, ast.Constant) and isinstance(c.value, str))
         qualified = any(isinstance(c, ast.Call) and norm(c.func) == 'get_full_name_for_sql' and c.args and norm(c.args[0]) == m4 for c in ast.walk(rn.node))
         direct = [s_ for s_ in sinks_of(rn) if s_.source == ('attr', f'{m4}.name')]
-        if not has_kw:
+        calls_out = [c for c in ast.walk(rn.node) if isinstance(c, ast.Call) and isinstance(c.func, ast.Name) and idx.resolve(rn.module, c.func.id) is not None
+                     and idx.resolve(rn.module, c.func.id).kind == 'func' and c.func.id not in ANCHOR_HELPERS]
+        if not has_kw and calls_out:
+            col.unk('C03-table', 'render_column_notes:qualified', f'render_column_notes builds its statements in `{calls_out[0].func.id}`, which this rule could not read in place',
+                    node=rn.node, file=rn.file)
+        elif not has_kw:
             col.bad('C03-table', 'render_column_notes:qualified', 'render_column_notes emits no COMMENT ON COLUMN statement', node=rn.node, file=rn.file)
         elif direct or not qualified:
             col.bad('C03-table', 'render_column_notes:qualified', 'render_column_notes does not address the column through get_full_name_for_sql(model): a table outside the default '
